@@ -71,6 +71,8 @@ def gen_cases(ctx: Ctx):
                     cases.append(("identity", an, N, T, masked, stateful, rng.randrange(10 ** 6)))
     # learners CONFIGURED with non-default coefficients: what their real train minimises / reports / returns
     for an in ("PPO", "A2C", "REINFORCE"):
+        for _ in range(ctx.pick(1, 3)):
+            cases.append(("carried", an, rng.randrange(10 ** 6)))
         for normalize, clipv in ((False, True), (True, False), (False, False), (True, True))[:4 if an == "PPO" else 2]:
             for _ in range(ctx.pick(1, 4)):
                 cases.append(("configured", an, normalize, clipv, rng.randrange(10 ** 6)))
@@ -85,6 +87,9 @@ def record(case):
     if kind == "identity":
         from .. import drive_identity as di
         return dict(di.identity_case(*case[1:]), c={})
+    if kind == "carried":
+        from .. import drive_identity as di
+        return dict(di.carried_state_case(*case[1:]), c={})
     if kind == "configured":
         from .. import drive_identity as di
         return dict(di.routing_case(*case[1:]), c={})
